@@ -12,6 +12,7 @@ import J1939.Lemmas.Dll21Tick
 import J1939.Props.C07
 import J1939.Model.Pre22
 import J1939.Lemmas.Dll22Tick
+import J1939.Lemmas.EcuPass
 namespace J1939.Props.C08
 open J1939 J1939.Gen J1939.Dll21 J1939.Pre21
 
@@ -557,4 +558,28 @@ theorem c08_22_pre_pass_ok (cfg : Cfg) (acc : Nat → Bool) (s : St) (now K : Na
     exact afterRcv_ok cfg acc now _ frame s1 nw1 o1 hnow hc r2 r3
 
 end fd
+/-! ### the blocking wait of the ECU thread -/
+section wait
+open J1939.Ecu J1939.Lemmas
+
+/-- THE THREAD NEVER BLOCKS WITH A NON-POSITIVE TIMEOUT: whenever a pass of the ECU thread ends in the blocking wait on
+    its wake-up queue, the timeout it passes is strictly positive — for every timer table, every clock, every wake-up time
+    the data link layer asked for (also one that the receive path moved to "now" or into the past during the pass: then
+    the pass does not block at all).  `queue.Queue.get` raises ValueError for a negative timeout, which would end the
+    thread. -/
+theorem c08_wait_timeout_positive (c : Core) (now clk dllWake d : Nat)
+    (h : (c.pass now clk dllWake).2.2.1 = Sleep.sleep d) : 0 < d := by
+  obtain ⟨hgt, _, hd⟩ := pass_sleep c now clk dllWake d h
+  omega
+
+/-- … and a wake-up time that is not in the future never blocks -/
+theorem c08_no_wait_when_due (c : Core) (now clk dllWake : Nat)
+    (h : (timerLoop now (c.timers.map (·.uid)) c clk dllWake []).2.2.1 ≤ (timerLoop now (c.timers.map (·.uid)) c clk dllWake []).2.1) :
+    (c.pass now clk dllWake).2.2.1 = Sleep.spin := by
+  unfold Core.pass
+  simp only
+  have : ¬ (timerLoop now (c.timers.map (·.uid)) c clk dllWake []).2.2.1 > (timerLoop now (c.timers.map (·.uid)) c clk dllWake []).2.1 := by omega
+  simp only [this, if_false]
+end wait
+
 end J1939.Props.C08
